@@ -7,12 +7,13 @@ UNIT_SAFETY = {
     "adc": "C01",
     "chunk": "C01",
     "pwb": "C01",
+    "pwbchunks": "C01",
 }
 
 PROPS = {
     "C01": {
         "title": "Raw-data decoders are total",
-        "units": ["trg", "adc", "chunk", "pwb"],
+        "units": ["trg", "adc", "chunk", "pwb", "pwbchunks"],
         "kani_quick": ["trg_complete_80", "trg_other_lengths"],
         "kani_thorough": [],
         "level": "proof",
@@ -27,6 +28,11 @@ PROPS = {
     "C03": {
         "title": "PWB chunks are integrity-checked",
         "units": ["chunk"],
+        "level": "proof",
+    },
+    "C04": {
+        "title": "PWB packet reassembly is arrival-order independent and loss/duplication safe",
+        "units": ["pwbchunks"],
         "level": "proof",
     },
     "C05": {
